@@ -35,3 +35,19 @@ pub(crate) fn event(kind: &'static str, a: u64, b: u64) {
 		h(kind, a, b)
 	}
 }
+
+/// H7: the size of a NEW reference count table (2^bits chunks of 32 counters instead of the built-in
+/// 2^16), so that the harness reaches growth and reindexing of that table with a few dozen shared
+/// nodes instead of a million. 0 = built-in size. Read when a column is opened.
+static FIRST_REF_COUNT_BITS: std::sync::atomic::AtomicU8 = std::sync::atomic::AtomicU8::new(0);
+
+pub fn set_first_ref_count_bits(bits: u8) {
+	FIRST_REF_COUNT_BITS.store(bits, std::sync::atomic::Ordering::SeqCst);
+}
+
+pub(crate) fn first_ref_count_bits() -> u8 {
+	match FIRST_REF_COUNT_BITS.load(std::sync::atomic::Ordering::SeqCst) {
+		0 => crate::column::MIN_REF_COUNT_BITS,
+		b => b,
+	}
+}
